@@ -717,6 +717,8 @@ def world_sidecars(cfg, q, schema):
         e['others_same'] = ['(' + ' && '.join(['true'] + ['post.%s == pre.%s' % (f, f) for j, f in enumerate(e['archetype']) if j != i]) + ')'
                             for i in e['J']]
         tags = e['Tag']
+        pairs = ['(x.aid() == %s::ARCHETYPE_ID && y.aid() == %s::ARCHETYPE_ID)' % (tags[i], tags[j]) for i in range(len(tags)) for j in range(len(tags)) if i != j]
+        e['cross_pairs'] = ' || '.join(pairs) if pairs else 'false'
         e['distinct_ids'] = ' && '.join(['true'] + ['%s::ARCHETYPE_ID != %s::ARCHETYPE_ID' % (tags[i], tags[j]) for i in range(len(tags)) for j in range(i + 1, len(tags))])
         e['data_cs'] = [', '.join('data.c%d()' % k for k in by_name[a]['I']) for a in e['Archetype']]
         for k in ('Archetype', 'archetype', 'Tag', 'St', 'StE', 'J', 'ArchetypeComponents', 'ArchetypeDirect'):
